@@ -7,7 +7,7 @@ isomorphism and accepts every renumbering; the balance model answers true exactl
 counts and charge agree; `standardize` is idempotent and permutation-invariant given the stated
 hypotheses on the opaque canonical SMILES.
 
-Correspondence on the working tree (eight streams, regressions first):
+Correspondence on the working tree (twelve streams, regressions first):
  1. canonicaliser, back-ends wl and nauty: model `rxn.canon` (fed with the back-end's labelling)
     = implementation's canonical graphs; specification gates on the implementation's output:
     ITS(canon r) isomorphic to ITS(r) (Lean `match.iso`) and `smiles_check(..., "ITS")` true, equal
@@ -38,6 +38,16 @@ Correspondence on the working tree (eight streams, regressions first):
     Inputs: hand-written re-mappings related by a reactant tautomer shift (amidine N/N, acid O/O), isomeric aromatisations
     (soft bond changes only), different reactions with isomorphic centres, and corpus reactions with renumberings,
     centre transpositions, tautomer-shift transpositions and same-centre partner reactions.
+ 2'. (inside stream 2) NormalizeAAM.fit (both values of fix_aam_indice) as a further producer of re-spellings - its output must be
+    a renumbering (ITS / centre isomorphic to the input's, Lean `match.iso`; ITS only without explicit hydrogen atoms) and the
+    validator must accept it; check_equivariant_graph called directly on the ground truth + 4 variants (pairs that the Lean
+    decisions determine).
+ 9.-12. (generated last) the entry points, options and error branches that coverage/C09.json showed as never executed: the batch
+    balance check dicts_balance_check (all input forms, column names, worker counts; verdict = Lean `rxn.balanced`); Standardize
+    with ignore_stereo=False / remove_aam=False / fragments RDKit rejects / strings that are not A>>B (model with explicit error
+    branches, sorted by Lean), remove_atom_mapping with another separator; CanonRSMI on degenerate reactions and through
+    __call__ (model `rxn.canon` incl. Err.emptyMap), remap_graph in both input forms (Lean `rxn.remap`), get_aam_pairwise_indices
+    (brute force); reactions with a side RDKit rejects through the balance check, the validator entry points and FixAAM.
 """
 import json
 import logging
@@ -330,6 +340,8 @@ def canon_case(ctx, backend, src, rs, n_variants, tag="corpus"):
         ctx.case(["canon", backend, rs], False)
         ctx.violation("CanonRSMI raises on a parseable mapped reaction", case, {"exception": repr(e)[:300]}, classes)
         return
+    if cn.raw_rsmi != rs:
+        ctx.violation("CanonRSMI.raw_rsmi is not the query that was canonicalised", case, {"raw_rsmi": cn.raw_rsmi}, no_input=True)
     out_its = None if (out is None or "None" in out) else its_rc(out)
     reqs = [{"cmd": "rxn.fullyMapped", "G": enc(cn.raw_reactant_graph), "H": enc(cn.raw_product_graph)},
             {"cmd": "rxn.autCount", "G": enc(G)},
@@ -413,6 +425,23 @@ def canon_case(ctx, backend, src, rs, n_variants, tag="corpus"):
 
 
 # ---------------------------------------------------------------- stream 2: validator
+NORMALIZE_KINDS = ("normalize_aam", "normalize_aam_keep_numbers")
+MULTI_CAP = 4
+
+
+def produced_variant(kind, rs):
+    """Re-spellings of a mapped reaction made by the anchored code itself (deterministic)."""
+    if kind == "fix_aam":
+        from synkit.Chem.Reaction.fix_aam import FixAAM
+
+        return FixAAM.fix_aam_rsmi(rs)
+    from synkit.Graph.ITS.normalize_aam import NormalizeAAM
+
+    if kind == "normalize_aam":
+        return NormalizeAAM().fit(rs)
+    return NormalizeAAM().fit(rs, False) if len(rs) % 2 else NormalizeAAM().fit(rs, fix_aam_indice=False)
+
+
 def validator_case(ctx, src, rs, n_trans, fixed=None):
     from synkit.Chem.Reaction.aam_validator import AAMValidator
     from synkit.Chem.Reaction.fix_aam import FixAAM
@@ -433,11 +462,23 @@ def validator_case(ctx, src, rs, n_trans, fixed=None):
                           {"stream": "validator", "source": src, "rsmi": rs}, {"impl": a, "model": b}, no_input=True)
             return
     centre = sorted(rc.nodes)
+    has_h = any(d.get("element") == "H" for g in (G, H) for _, d in g.nodes(data=True))
     variants = [("renumber", renumber(rs, ctx.rnd, canonical=False)), ("renumber", renumber(rs, ctx.rnd, canonical=True))]
     try:
         variants.append(("fix_aam", FixAAM.fix_aam_rsmi(rs)))
     except Exception:
         ctx.count("validator:fix_aam_error")
+    # the other producer of re-spellings among the anchored files (no random choice): NormalizeAAM.fit, both values of its option
+    # quick: one of the two on every second reaction (by the length of the string: no random choice is consumed)
+    for kind in (NORMALIZE_KINDS if not ctx.quick or fixed is not None else NORMALIZE_KINDS[len(rs) % 4:][:1]):
+        try:
+            variants.append((kind, produced_variant(kind, rs)))
+        except Exception as e:  # noqa: BLE001
+            ctx.count("validator:normalize_aam_error")
+            if fixed is None:
+                ctx.violation("NormalizeAAM.fit raises on a parseable mapped reaction",
+                              {"stream": "validator", "source": src, "rsmi": rs, "kind": kind, "variant": None},
+                              {"exception": repr(e)[:300]})
     edited = lower_product_bond(rs, ctx.rnd)
     if edited is not None:
         variants.append(("bond_order_edit", edited))
@@ -479,12 +520,12 @@ def validator_case(ctx, src, rs, n_trans, fixed=None):
                     ctx.violation("validator accepts a mapping that does not parse", {**case, "method": m}, None)
             continue
         (G2, H2), its2, rc2 = other
-        parsed.append((kind, v, case))
+        parsed.append((kind, v, case, its2, rc2))
         reqs += [iso_req(its2, its), iso_req(rc2, rc)]
         for m in ("ITS", "RC"):
             reqs.append({"cmd": "rxn.aamCheck", "method": m, "G1": enc(G2), "H1": enc(H2), "G2": enc(G), "H2": enc(H)})
     replies = yield reqs
-    for i, (kind, v, case) in enumerate(parsed):
+    for i, (kind, v, case, _its2, _rc2) in enumerate(parsed):
         iso_its, iso_rc, mod_its, mod_rc = replies[4 * i:4 * i + 4]
         for m, spec, mod in (("ITS", iso_its, mod_its), ("RC", iso_rc, mod_rc)):
             got = AAMValidator.smiles_check(v, rs, m)
@@ -493,7 +534,15 @@ def validator_case(ctx, src, rs, n_trans, fixed=None):
                      sample={"stream": "validator", "method": m, "kind": kind, "rsmi": rs, "variant": v, "verdict": got}
                      if len(rs) < 120 else None)
             c = {**case, "method": m}
-            if kind in ("renumber", "fix_aam") and not got:
+            if kind in NORMALIZE_KINDS and not spec and (m == "RC" or not has_h):
+                # NormalizeAAM.fit only re-spells (kekulised, map numbers + 1, hydrogens outside the centre folded): without
+                # explicit hydrogen atoms the result must be a renumbering; with them the centre must still be the same
+                ctx.violation(f"NormalizeAAM.fit does not preserve the reaction: the {'centre' if m == 'RC' else 'ITS'} graph of its "
+                              "output is not isomorphic to the input's (Lean match.iso)", c,
+                              {"validator": got, "lean_iso": spec, "model": mod, "explicit_hydrogens": has_h})
+            elif kind in NORMALIZE_KINDS and spec and not got:
+                ctx.violation("validator rejects a renumbering of the mapping", c, {"lean_iso": spec, "model": mod})
+            elif kind in ("renumber", "fix_aam") and not got:
                 ctx.violation("validator rejects a renumbering of the mapping", c, {"lean_iso": spec, "model": mod})
             elif got != spec:
                 ctx.violation("validator verdict differs from the Lean isomorphism decision on the ITS / centre graphs", c,
@@ -501,6 +550,48 @@ def validator_case(ctx, src, rs, n_trans, fixed=None):
             elif mod != spec:
                 ctx.violation("model aamCheck differs from match.iso on the implementation's graphs", c,
                               {"impl": got, "lean_iso": spec, "model": mod}, no_input=True)
+    # the classifier behind smiles_check, called directly with MORE than two graphs (smiles_check always passes two): the ground
+    # truth and up to MULTI_CAP of its variants.  Of the pairs it reports, those that the Lean decisions "variant k isomorphic
+    # to the ground truth" determine (isomorphism is an equivalence) are gated: (0, k) <-> iso_k; (j, k) with iso_j and iso_k
+    # -> reported; with iso_j != iso_k -> not reported; with neither -> undetermined, not gated.
+    idx = list(range(len(parsed)))
+    idx = idx[:1] + idx[1:][-(MULTI_CAP - 1):]  # a renumbering and the last variants (transpositions: both outcomes occur)
+    sel = [parsed[i] for i in idx]
+    if len(sel) >= 2:
+        for m, off, base_g in (("ITS", 0, its), ("RC", 1, rc)):
+            graphs = [base_g] + [p[3 + off] for p in sel]
+            iso0 = [True] + [bool(replies[4 * i + off]) for i in idx]
+            try:
+                pairs, count = AAMValidator.check_equivariant_graph(graphs)
+                pairs = {(min(a, b), max(a, b)) for a, b in pairs}
+            except Exception as e:  # noqa: BLE001
+                pairs, count = None, repr(e)[:200]
+            ctx.count(f"validator:multi:{m}:lists")
+            ctx.case(["validator-multi", m, rs, [p[1] for p in sel]], nontrivial=len(centre) >= 2)
+            bad = None
+            if pairs is None:
+                bad = "raises: " + count
+            elif count != len(pairs):
+                bad = f"count {count} differs from the number of distinct pairs {len(pairs)}"
+            else:
+                for a in range(len(graphs)):
+                    for b in range(a + 1, len(graphs)):
+                        if iso0[a] and iso0[b]:
+                            want = True
+                        elif iso0[a] != iso0[b]:
+                            want = False
+                        else:
+                            ctx.count(f"validator:multi:{m}:pairs_undetermined")
+                            continue
+                        ctx.count(f"validator:multi:{m}:pairs_{'iso' if want else 'not_iso'}")
+                        if ((a, b) in pairs) != want and bad is None:
+                            bad = f"pair ({a}, {b}) is {'not ' if want else ''}reported although the Lean decisions make the two graphs " \
+                                  f"{'' if want else 'non-'}isomorphic"
+            if bad:
+                ctx.violation(f"check_equivariant_graph on a list of {len(graphs)} {m} graphs (ground truth first): " + bad,
+                              {"stream": "validator", "source": src, "rsmi": rs, "kind": "multi", "method": m,
+                               "variants": [[p[0], p[1]] for p in sel]},
+                              {"reported_pairs": sorted(pairs) if pairs is not None else None, "iso_to_ground_truth": iso0})
 
 
 # ---------------------------------------------------------------- stream 3: balance
@@ -1539,6 +1630,626 @@ def entry_stream(ctx, pool, n_corpus):
     run_batch(ctx, [entry_case(ctx, src, t, answer=a, pre=p) for (src, t), a, p in zip(tables, answers, pre)])
 
 
+# ---------------------------------------------------------------- streams 9-12: remaining entry points, options, error branches
+# What the streams above never reached of the anchored code (coverage/C09.json), driven here, AFTER everything else (the streams
+# above keep their cases for a given seed):
+#   9. "balance_entry": BalanceReactionCheck.dicts_balance_check / parse_input / dict_balance_check, the batch entry point of the
+#      balance check (a single string, a list of strings, a list of records with the default / another column name passed by
+#      keyword / by position, strings and records mixed, records without the column in between, a tuple = unsupported container;
+#      constructor defaults (4 workers) / n_jobs 1, 2 by keyword / position).  Expected verdict of every reaction: Lean
+#      `rxn.balanced` on the two sides' atom tables.  Gates: every reaction given is answered exactly once with its other keys
+#      kept, its verdict is the model's, and it sits in the list (balanced, unbalanced) that matches its verdict.
+#  10. "standardize_opt": Standardize.fit with ignore_stereo=False (model: sort + [HH] rewrite over the ISOMERIC canonical fragment
+#      SMILES; idempotent; invariant under atom order / fragment order / map numbers), standardize_rsmi(stereo=True) directly,
+#      remove_atom_mapping with another separator; remove_aam=False on reactions with fragments RDKit rejects (not parseable /
+#      not sanitisable: dropped by filter_valid_molecules, None when a side keeps no fragment), remove_aam=True on the same
+#      (ValueError), and strings that are not of the form A>>B (ValueError).  Expected answers: the harness' model of fit with the
+#      error branches explicit (`std_expect`, sorted by Lean `rxn.standardize`).
+#  11. "canon_edge": CanonRSMI on strings that are not of the form A>>B (ValueError), on reactions whose product side is empty /
+#      carries no map number (model `rxn.canon`: Err.emptyMap = ValueError), on an empty reactant side (model = implementation on
+#      the canonical graphs), called through __call__; the public helpers remap_graph in its two documented input forms (list of
+#      (new, old) pairs / list of old ids, partial lists, an empty list, ids the graph does not have) against Lean `rxn.remap`
+#      (remapGraph / remapGraphList), and get_aam_pairwise_indices with the default / another attribute name against a brute-force
+#      specification in the harness.
+#  12. "malformed": one side RDKit rejects -> the balance check must not answer True, the validator must not accept (smiles_check,
+#      check_pair with and without tautomers), FixAAM raises ValueError; validate_smiles on an unsupported container raises.
+BAL_DEFAULT_COL = "reactions"
+BAL_COLS = ["rsmi", "rxn", "reaction_smiles"]
+CLASS_BAL_KEY = "balance_batch_record_key_balanced_overrides_verdict"
+JUNK_NOSAN = ["C(C)(C)(C)(C)C", "CN(C)(C)(C)C", "c1cccc1", "FCl(F)F", "[CH5]", "cc", "n1cccc1"]  # parse, but do not sanitise
+JUNK_NOPARSE = ["C1CC", "C(C", "Xx", "C==C", "CC("]  # do not parse at all
+STEREO_HAND = ["[CH3:1][C@H:2]([OH:3])[C:4](=[O:5])[OH:6].[CH3:7][OH:8]>>[CH3:1][C@H:2]([OH:3])[C:4](=[O:5])[O:8][CH3:7].[OH2:6]",
+               "[CH3:1]/[CH:2]=[CH:3]/[CH3:4].[Br:5][Br:6]>>[CH3:1][C@@H:2]([Br:5])[C@H:3]([Br:6])[CH3:4]",
+               "[F:1]/[CH:2]=[CH:3]\\[Cl:4]>>[F:1]/[CH:2]=[CH:3]/[Cl:4]"]
+
+
+def _exc(f, *a, **k):
+    """-> (value, None) or (None, exception type name)"""
+    try:
+        return f(*a, **k), None
+    except Exception as e:  # noqa: BLE001
+        return None, type(e).__name__
+
+
+def new_violation_ok(ctx, stream, src, cap=2):
+    """At most `cap` reports per new stream and source kind (regression / generated)."""
+    n = sum(1 for v in ctx.violations if isinstance(v["case"], dict) and v["case"].get("stream") == stream
+            and str(v["case"].get("source", "")).startswith("regress") == src.startswith("regress"))
+    if n >= cap:
+        ctx.count(f"{stream}:violations_not_reported_separately")
+    return n < cap
+
+
+# ---- 9. balance batch entry point
+def bal_side_ok(smi):
+    from rdkit import Chem
+
+    return smi == "" or Chem.MolFromSmiles(smi) is not None
+
+
+def gen_balance_batch(ctx, pool, k):
+    rnd = ctx.rnd
+    style = ["list_dict", "str", "mixed", "list_str", "list_dict", "tuple", "mixed"][k % 7]  # every input form in every run
+    n = 1 if style == "str" else rnd.choice([1, 2, 3, 4, 6])
+    # worker processes (joblib) only in two batches out of fourteen: the constructor's default (4 workers) and n_jobs=2
+    n_jobs, ctor = {3: (None, "default"), 10: (2, "kw")}.get(k % 14, (1, rnd.choice(["kw", "pos"])))
+    items = []
+    while len(items) < n:
+        s, r = rnd.choice(pool)
+        kind, v = rnd.choice(balance_variants(r, rnd))
+        if not all(bal_side_ok(x) for x in v.split(">>")):
+            continue
+        if n_jobs != 1 and "[H" in v:
+            continue  # RDKit's warnings about lone hydrogens cannot be silenced in joblib's worker processes
+        as_dict = style == "list_dict" or (style == "mixed" and rnd.random() < 0.5)
+        it = {"rsmi": v, "variant": kind, "form": "dict" if as_dict else "str"}
+        if as_dict:
+            it["extra"] = dict(rnd.sample([("id", len(items)), ("source", s), ("note", "x" * rnd.randrange(3)), ("yield", 50)],
+                                          rnd.randrange(0, 4)))
+        items.append(it)
+    if style in ("list_dict", "mixed") and (k % 7 == 2 or rnd.random() < 0.25):  # records without the column: nothing to answer
+        for _ in range(rnd.choice([1, 2])):
+            items.insert(rnd.randrange(len(items) + 1), {"form": "junk", "extra": {"id": 99, "comment": "no reaction here"}})
+    if style in ("list_dict", "mixed") and (k == 0 or rnd.random() < 0.25) and any(i["form"] == "dict" for i in items):
+        # a record that already carries the key "balanced" (e.g. the output of an earlier run, the reaction corrected since):
+        # the stale value is set to the opposite of the true verdict once the model has answered
+        rnd.choice([i for i in items if i["form"] == "dict"])["stale_key"] = True
+    col = BAL_DEFAULT_COL if rnd.random() < 0.5 else rnd.choice(BAL_COLS)
+    pass_col = rnd.choice(["no", "kw", "pos"]) if col == BAL_DEFAULT_COL else rnd.choice(["kw", "pos"])
+    return {"stream": "balance_entry", "style": style, "col": col, "pass_col": pass_col, "n_jobs": n_jobs, "ctor": ctor, "items": items}
+
+
+def balance_entry_case(ctx, src, b):
+    from synkit.Chem.Reaction.balance_check import BalanceReactionCheck
+
+    col, items = b["col"], [dict(i) for i in b["items"]]
+    real = [i for i in items if i["form"] != "junk"]
+    reqs = []
+    for i in real:
+        r, p = i["rsmi"].split(">>")
+        reqs.append({"cmd": "rxn.balanced", "G": graphio.graph(side_graph(r), ["element", "hcount", "charge"], []),
+                     "H": graphio.graph(side_graph(p), ["element", "hcount", "charge"], [])})
+    replies = yield reqs
+    want = []  # the records the answer must consist of: (other keys, verdict)
+    data = []
+    for i in items:
+        if i["form"] == "junk":
+            data.append(dict(i["extra"]))
+            continue
+        verdict = bool(replies[real.index(i)]["balanced"])
+        if i["form"] == "str":
+            data.append(i["rsmi"])
+            want.append(({col: i["rsmi"]}, verdict))
+        else:
+            rec = {col: i["rsmi"], **i.get("extra", {})}
+            if i.get("stale_key"):
+                rec["balanced"] = not verdict
+            data.append(rec)
+            want.append(({k: v for k, v in rec.items() if k != "balanced"}, verdict))
+    stale = any(i.get("stale_key") for i in items)
+    if b["style"] == "str":
+        data = data[0]
+    elif b["style"] == "tuple":
+        data = tuple(data)
+    chk = BalanceReactionCheck() if b["ctor"] == "default" else \
+        (BalanceReactionCheck(b["n_jobs"]) if b["ctor"] == "pos" else BalanceReactionCheck(n_jobs=b["n_jobs"], verbose=0))
+    if b["pass_col"] == "no":
+        res, exc = _exc(chk.dicts_balance_check, data)
+    elif b["pass_col"] == "kw":
+        res, exc = _exc(chk.dicts_balance_check, data, rsmi_column=col)
+    else:
+        res, exc = _exc(chk.dicts_balance_check, data, col)
+    ctx.count("balance_entry:batches")
+    ctx.count(f"balance_entry:style:{b['style']}")
+    ctx.count(f"balance_entry:column:{'default' if col == BAL_DEFAULT_COL else 'other'}:{b['pass_col']}")
+    ctx.count(f"balance_entry:n_jobs:{b['n_jobs'] if b['n_jobs'] is not None else 'constructor_default'}")
+    ctx.count("balance_entry:reactions", len(real))
+    ctx.count("balance_entry:records_without_column", len(items) - len(real))
+    if stale:
+        ctx.count("balance_entry:batches_with_record_carrying_key_balanced")
+    for _, v in want:
+        ctx.count(f"balance_entry:expected:{'balanced' if v else 'unbalanced'}")
+    ctx.case(["balance_entry", b["style"], col, b["pass_col"], b["n_jobs"], [i.get("rsmi") for i in items], stale],
+             nontrivial=len(real) >= 2,
+             sample={"stream": "balance_entry", "style": b["style"], "column": col, "n_jobs": b["n_jobs"],
+                     "reactions": [i.get("rsmi") for i in items], "answer": repr(res)[:300]} if len(repr(data)) < 400 else None)
+    case = {**b, "source": src}
+    junk = len(items) > len(real)
+    if exc is not None:
+        ctx.count(f"balance_entry:raises:{exc}:{b['style']}")
+        if b["style"] == "tuple" or junk:
+            return  # an unsupported container / a record without the column: refusing to answer is within the property
+        if new_violation_ok(ctx, "balance_entry", src):
+            ctx.violation("dicts_balance_check raises on a documented input form", case, {"exception": exc})
+        return
+    bad, classes = None, []
+    try:
+        bal, unbal = res
+        got = [({k: v for k, v in r.items() if k != "balanced"}, r.get("balanced"), True) for r in bal] + \
+              [({k: v for k, v in r.items() if k != "balanced"}, r.get("balanced"), False) for r in unbal]
+    except Exception as e:  # noqa: BLE001
+        got, bad = [], "answer is not a pair of lists of records: " + repr(e)[:120]
+    key = lambda d: json.dumps(d, sort_keys=True)  # noqa: E731
+    if bad is None and sorted(key(g[0]) for g in got) != sorted(key(w[0]) for w in want):
+        bad = "the records answered are not the reactions given (each once, other keys kept)"
+    if bad is None:
+        exp = {key(w[0]): w[1] for w in want}  # equal records are the same reaction: one verdict
+        for rec, verdict, in_balanced in got:
+            w = exp[key(rec)]
+            if verdict is not w or in_balanced != w:
+                bad = (f"reaction {rec.get(col)!r}: answered balanced={verdict!r}, listed as {'balanced' if in_balanced else 'unbalanced'}; "
+                       f"element counts (with hydrogens) and charge {'agree' if w else 'differ'} (Lean rxn.balanced)")
+                if stale and any(i.get("stale_key") and i["rsmi"] == rec.get(col) for i in items):
+                    classes = [CLASS_BAL_KEY]
+                break
+    if bad and new_violation_ok(ctx, "balance_entry", src, cap=1 if classes else 2):
+        ctx.violation("batch balance check: " + bad, case, {"input": repr(data)[:600], "answer": repr(res)[:600]}, classes)
+
+
+def balance_entry_stream(ctx, pool, n):
+    run_batch(ctx, [balance_entry_case(ctx, f"balance_entry:{k}", gen_balance_batch(ctx, pool, k)) for k in range(n)])
+
+
+# ---- 10. Standardize: options and error branches
+def std_expect(rs, remove_aam=True, stereo=False):
+    """Model of Standardize.fit with the error branches explicit: "ValueError" (not of the form A>>B; with remove_aam a side that
+    RDKit rejects), "NONE" (a side keeps no valid fragment), else the reaction (fragments sorted by Lean, [HH] rewritten)."""
+    from rdkit import Chem
+
+    parts = rs.split(">>")
+    if len(parts) != 2:
+        return "ValueError"
+    if remove_aam:
+        clean = []
+        for side in parts:
+            m = Chem.MolFromSmiles(side)
+            if m is None:
+                return "ValueError"
+            for a in m.GetAtoms():
+                a.SetAtomMapNum(0)
+            clean.append(Chem.MolToSmiles(m, canonical=True))
+        parts = clean
+    sides = []
+    for side in parts:
+        frs = []
+        for f in side.split("."):
+            fm = Chem.MolFromSmiles(f, sanitize=False)
+            if fm is None:
+                continue
+            try:
+                Chem.SanitizeMol(fm)
+            except Exception:  # noqa: BLE001
+                continue
+            frs.append(Chem.MolToSmiles(fm, isomericSmiles=stereo))
+        sides.append(frs)
+    if not sides[0] or not sides[1]:
+        return "NONE"
+    o = (yield [{"cmd": "rxn.standardize", "left": sides[0], "right": sides[1]}])[0]
+    return ".".join(o["left"]) + ">>" + ".".join(o["right"])
+
+
+def fit_call(rs, remove_aam, stereo, style):
+    from synkit.Chem.Reaction.standardize import Standardize
+
+    try:
+        if style == "pos":
+            r = Standardize().fit(rs, remove_aam, not stereo)
+        elif style == "static":  # the step behind fit, called directly (no map removal, no [HH] rewrite)
+            r = Standardize.standardize_rsmi(rs, stereo) if stereo else Standardize.standardize_rsmi(rs)
+            r = r if r is None else r.replace("[HH]", "[H][H]")
+        else:
+            kw = {}
+            if not remove_aam:
+                kw["remove_aam"] = False
+            if stereo:
+                kw["ignore_stereo"] = False
+            r = Standardize().fit(rs, **kw)
+        return "NONE" if r is None else r
+    except Exception as e:  # noqa: BLE001
+        return type(e).__name__
+
+
+def has_stereo(s):
+    return "@" in s or "/" in s or "\\" in s
+
+
+def standardize_opt_case(ctx, src, c):
+    """c: {"mode", "rsmi", "remove_aam", "stereo", "style", optional "variants": [...]} - pure data (replayable)."""
+    rs, ra, st, style = c["rsmi"], c["remove_aam"], c["stereo"], c["style"]
+    got = fit_call(rs, ra, st, style)
+    exp = yield from std_expect(rs, ra, st)
+    hh = lambda x: x.replace("[H][H]", "[HH]")  # noqa: E731
+    case = {"stream": "standardize_opt", "source": src, **c}
+    ctx.count(f"standardize_opt:{c['mode']}:cases")
+    ctx.count(f"standardize_opt:{c['mode']}:answer:{got if got in ('NONE',) or got.endswith('Error') else 'reaction'}")
+    ctx.count(f"standardize_opt:options:remove_aam={ra},keep_stereo={st},{style}")
+    if st and has_stereo(got):
+        ctx.count("standardize_opt:answers_with_stereo_marks")
+    ctx.case(["standardize_opt", rs, ra, st, style], nontrivial=rs.count(".") >= 1,
+             sample={"stream": "standardize_opt", "mode": c["mode"], "rsmi": rs, "remove_aam": ra, "keep_stereo": st, "answer": got}
+             if len(rs) < 140 else None)
+    if hh(got) != hh(exp):
+        if new_violation_ok(ctx, "standardize_opt", src):
+            ctx.violation("Standardize.fit differs from its model (map removal - per-fragment filter - sort - [HH] rewrite, error "
+                          "branches explicit) on a non-default option / a rejected fragment / a malformed string", case,
+                          {"impl": got, "model": exp}, no_input=True)
+        return
+    if got == "NONE" or got.endswith("Error"):
+        return
+    again = fit_call(got, ra, st, "kw")
+    if again != got:
+        if new_violation_ok(ctx, "standardize_opt", src):
+            ctx.violation("Standardize.fit is not idempotent (non-default options)", case, {"fit": got, "fit_of_fit": again})
+        return
+    for v in c.get("variants", []):
+        sv = fit_call(v, ra, st, "kw")
+        ctx.count(f"standardize_opt:{c['mode']}:variants")
+        if hh(sv) != hh(got):
+            if new_violation_ok(ctx, "standardize_opt", src):
+                ctx.violation("Standardize.fit is not invariant under atom order / fragment order / map numbers (non-default options"
+                              " / fragments RDKit rejects in between)", {**case, "variants": [v]}, {"fit": got, "fit_of_variant": sv})
+            return
+
+
+def shuffle_frags(rs, rnd):
+    out = []
+    for side in rs.split(">>"):
+        fr = side.split(".")
+        rnd.shuffle(fr)
+        out.append(".".join(fr))
+    return ">>".join(out)
+
+
+def gen_standardize_opt(ctx, pool, n_stereo, n_junk):
+    from rdkit import Chem
+
+    rnd = ctx.rnd
+    out = []
+    stereo_pool = [(s, r) for s, r in pool if has_stereo(r)]
+    for s, r in [("hand:stereo", x) for x in STEREO_HAND] + (stereo_pool if n_stereo >= len(stereo_pool) else rnd.sample(stereo_pool, n_stereo)):
+        vs = []
+        for k in range(2):
+            v = rewrite(r, rnd) if k == 0 else renumber(r, rnd, canonical=False)
+            if v is not None:
+                vs.append(v)
+        out.append((s, {"mode": "stereo", "rsmi": r, "remove_aam": True, "stereo": True, "style": rnd.choice(["kw", "pos"]), "variants": vs}))
+        if rnd.random() < 0.4:  # the step behind fit, directly, on the unmapped reaction (fragments shuffled, re-rooted)
+            u = strip_maps_keep_order(r, rnd)
+            if u is not None:
+                out.append((s, {"mode": "stereo_static", "rsmi": u, "remove_aam": False, "stereo": True, "style": "static",
+                                "variants": [shuffle_frags(u, rnd)]}))
+    i = 0
+    for s, r in (pool if n_junk >= len(pool) else rnd.sample(pool, n_junk)):
+        base = fit(r)
+        if base in ("NONE",) or base.startswith("EXC:"):
+            continue
+        sides = [x.split(".") for x in base.split(">>")]
+        mode = ["junk", "junk_side", "junk", "junk"][i % 4]
+        if mode == "junk":
+            for j in range(rnd.choice([1, 1, 2, 3])):
+                side = rnd.choice(sides)
+                side.insert(rnd.randrange(len(side) + 1), rnd.choice(JUNK_NOSAN if (i + j) % 2 == 0 else JUNK_NOPARSE))
+        else:
+            sides[rnd.randrange(2)][:] = rnd.sample(JUNK_NOSAN + JUNK_NOPARSE, rnd.choice([1, 2]))
+        x = ">>".join(".".join(sd) for sd in sides)
+        out.append((s, {"mode": mode, "rsmi": x, "remove_aam": False, "stereo": rnd.random() < 0.3,
+                        "style": ["kw", "pos", "static"][i // 4 % 3], "variants": [shuffle_frags(x, rnd)]}))
+        i += 1
+        out.append((s, {"mode": mode + "_remove_aam", "rsmi": x, "remove_aam": True, "stereo": False, "style": rnd.choice(["kw", "pos"])}))
+    for i, (s, r) in enumerate(rnd.sample(pool, 6)):
+        lhs, rhs = r.split(">>")
+        x = rnd.choice([lhs, lhs + ">" + rhs, r + ">>" + rhs, lhs + ">>" + rhs + ">>", ""])
+        style = ["kw", "pos", "static"][i % 3]
+        out.append((s, {"mode": "malformed", "rsmi": x, "remove_aam": style != "static" and i < 3, "stereo": False, "style": style}))
+    return out
+
+
+def remove_mapping_case(ctx, src, rs, symbol):
+    """remove_atom_mapping with another separator: no map number left, same constitution per side (specification computed here)."""
+    from rdkit import Chem
+    from synkit.Chem.Reaction.standardize import Standardize
+
+    x = rs.replace(">>", symbol)
+    got, exc = _exc(Standardize.remove_atom_mapping, x, symbol) if symbol != ">>" else _exc(Standardize.remove_atom_mapping, x)
+    ctx.count(f"standardize_opt:remove_atom_mapping:separator:{symbol}")
+    ctx.case(["remove_atom_mapping", x, symbol], nontrivial=True)
+    bad = None
+    if exc is not None:
+        bad = "raises " + exc
+    else:
+        sides = got.split(symbol)
+        if len(sides) != 2:
+            bad = "answer is not of the form A" + symbol + "B"
+        else:
+            for a, b in zip(sides, rs.split(">>")):
+                m = Chem.MolFromSmiles(a)
+                if m is None or any(at.GetAtomMapNum() for at in m.GetAtoms()):
+                    bad = "a side of the answer does not parse / still carries map numbers"
+                elif unmapped_side(a) != unmapped_side(b):
+                    bad = "a side of the answer is a different molecule set"
+    if bad and new_violation_ok(ctx, "standardize_opt", src):
+        ctx.violation("remove_atom_mapping: " + bad, {"stream": "standardize_opt", "source": src, "mode": "remove_atom_mapping",
+                                                      "rsmi": rs, "symbol": symbol}, {"answer": got})
+
+
+# ---- 11. canonicaliser: degenerate reactions, __call__, public helpers
+def strip_side_maps(smi):
+    from rdkit import Chem
+
+    m = Chem.MolFromSmiles(smi, sanitize=False)
+    for a in m.GetAtoms():
+        a.SetAtomMapNum(0)
+    return Chem.MolToSmiles(m, canonical=False)
+
+
+def canon_edge_case(ctx, src, c):
+    """c: {"mode", "backend", "rsmi", "call"} - the canonicaliser on a degenerate reaction; model `rxn.canon` with its error enum."""
+    from synkit.Chem.Reaction.canon_rsmi import CanonRSMI
+    from synkit.IO.chem_converter import rsmi_to_graph
+
+    rs, backend = c["rsmi"], c["backend"]
+    case = {"stream": "canon_edge", "source": src, **c}
+    cn = CanonRSMI(backend=backend)
+    rec = {}
+    orig = cn._canon.canonicalise_graph
+
+    def wrapped(g):
+        res = orig(g)
+        rec["lab"] = sorted([int(d.get("atom_map", 0)), int(n)] for n, d in res.canonical_graph.nodes(data=True))
+        return res
+
+    cn._canon.canonicalise_graph = wrapped
+    try:
+        out = (cn(rs) if c.get("call") == "call" else cn.canonicalise(rs)).canonical_rsmi
+        exc = None
+    except Exception as e:  # noqa: BLE001
+        out, exc = None, type(e).__name__
+    ctx.count(f"canon_edge:{c['mode']}:{backend}")
+    ctx.count(f"canon_edge:{c['mode']}:answer:{exc or 'reaction'}")
+    ctx.case(["canon_edge", backend, rs, c.get("call")], nontrivial=len(rs) > 10,
+             sample={"stream": "canon_edge", "mode": c["mode"], "backend": backend, "rsmi": rs, "answer": exc or out} if len(rs) < 140 else None)
+    if rs.count(">>") != 1:
+        model = {"error": "ValueError"}
+    else:
+        try:
+            G, H = rsmi_to_graph(cn.expand_aam(rs))
+        except Exception:  # noqa: BLE001
+            ctx.count("canon_edge:skipped_unparseable")
+            return
+        if "lab" not in rec:
+            ctx.count("canon_edge:no_labelling_recorded")
+            if exc is None and new_violation_ok(ctx, "canon_edge", src):
+                ctx.violation("canonicaliser answered without canonicalising the reactant graph", case, {"answer": out}, no_input=True)
+            return
+        model = (yield [{"cmd": "rxn.canon", "G": enc(G), "H": enc(H), "lab": rec["lab"]}])[0]
+    diff = None
+    if "error" in model:
+        if exc != model["error"]:
+            diff = {"model": model, "impl": exc or out}
+    elif exc is not None:
+        diff = {"model": "a canonical reaction", "impl": exc}
+    else:
+        impl_r, impl_p = norm_graph_json(enc(cn.canonical_reactant_graph)), norm_graph_json(enc(cn.canonical_product_graph))
+        if impl_r != norm_graph_json(model["reac"]) or impl_p != norm_graph_json(model["prod"]):
+            diff = {"impl_reac": impl_r, "model_reac": norm_graph_json(model["reac"]), "impl_prod": impl_p,
+                    "model_prod": norm_graph_json(model["prod"])}
+        elif c.get("call") == "call" and out != canon_str(backend, rs):
+            diff = {"via___call__": out, "via_canonicalise": canon_str(backend, rs)}
+    if diff is not None and new_violation_ok(ctx, "canon_edge", src):
+        ctx.violation("CanonRSMI on a degenerate reaction (not of the form A>>B / no mapped product atom / empty reactant side / "
+                      "through __call__) differs from the model canonRxnWith with its error branches", case, diff, no_input=True)
+
+
+def gen_canon_edge(ctx, pool, n):
+    rnd = ctx.rnd
+    out = []
+    for i, (s, r) in enumerate(rnd.sample(pool, min(n, len(pool)))):
+        lhs, rhs = r.split(">>")
+        mode = ["not_a_reaction", "no_mapped_product_atom", "empty_reactant_side", "call", "no_mapped_product_atom"][i % 5]
+        if mode == "not_a_reaction":
+            x = rnd.choice([lhs, lhs + ">" + rhs, r + ">>" + rhs, lhs + ">>>>" + rhs])
+        elif mode == "no_mapped_product_atom":
+            x = rnd.choice([lhs + ">>", lhs + ">>" + strip_side_maps(rhs), strip_side_maps(lhs) + ">>" + strip_side_maps(rhs)])
+        elif mode == "empty_reactant_side":
+            x = ">>" + rhs
+        else:
+            x = r
+        out.append((s, {"mode": mode, "backend": rnd.choice(BACKENDS), "rsmi": x, "call": "call" if mode == "call" or rnd.random() < 0.3 else "method"}))
+    return out
+
+
+def helper_graph(H, keys=("element", "aromatic", "hcount", "charge", "atom_map")):
+    """Plain-data copy of a graph (nodes in order, attributes restricted to `keys`)."""
+    return {"nodes": [[int(n), {k: d[k] for k in keys if k in d}] for n, d in H.nodes(data=True)],
+            "edges": [[int(u), int(v), {"order": d.get("order")}] for u, v, d in H.edges(data=True)]}
+
+
+def build_graph(j):
+    import networkx as nx
+
+    g = nx.Graph()
+    for n, d in j["nodes"]:
+        g.add_node(n, **d)
+    for u, v, d in j["edges"]:
+        g.add_edge(u, v, **d)
+    return g
+
+
+def remap_case(ctx, src, c):
+    """c: {"graph", "form": "pairs"|"order", "node_map"} - CanonRSMI.remap_graph against Lean remapGraph / remapGraphList."""
+    from synkit.Chem.Reaction.canon_rsmi import CanonRSMI
+
+    H = build_graph(c["graph"])
+    nm = [tuple(p) for p in c["node_map"]] if c["form"] == "pairs" else list(c["node_map"])
+    req = {"cmd": "rxn.remap", "H": enc(H)}
+    req["pairs" if c["form"] == "pairs" else "order"] = [list(p) for p in nm] if c["form"] == "pairs" else nm
+    model = (yield [req])[0]
+    got, exc = _exc(CanonRSMI.remap_graph, H, nm)
+    ctx.count(f"canon_edge:remap_graph:{c['form']}:{c.get('kind', 'replay')}")
+    ctx.count(f"canon_edge:remap_graph:model:{model.get('error', 'graph')}")
+    ctx.case(["remap_graph", c["graph"], c["form"], c["node_map"]], nontrivial=H.number_of_nodes() >= 3)
+    if model.get("error") == "collision":
+        return  # a relabelling that merges nodes: not modelled, not gated
+    diff = None
+    if "error" in model:
+        if exc != model["error"]:
+            diff = {"model": model["error"], "impl": exc or "a graph"}
+    elif exc is not None:
+        diff = {"model": "a graph", "impl": exc}
+    elif norm_graph_json(enc(got)) != norm_graph_json(model["graph"]):
+        diff = {"impl": norm_graph_json(enc(got)), "model": norm_graph_json(model["graph"])}
+    elif norm_graph_json(enc(H)) != norm_graph_json(enc(build_graph(c["graph"]))):
+        diff = {"input_graph_modified": norm_graph_json(enc(H))}
+    if diff is not None and new_violation_ok(ctx, "canon_edge", src):
+        ctx.violation("CanonRSMI.remap_graph differs from the model (remapGraph / remapGraphList: relabelled copy, ValueError on an "
+                      "empty map, KeyError on ids the graph does not have)", {"stream": "canon_edge", "source": src, "mode": "remap_graph", **c},
+                      diff, no_input=True)
+
+
+def pairwise_case(ctx, src, c):
+    """c: {"G", "H", "key"} - get_aam_pairwise_indices against: for every positive value carried on both sides, in increasing
+    order, the (last) node of G and the (last) node of H that carry it."""
+    from synkit.Chem.Reaction.canon_rsmi import CanonRSMI
+
+    G, H, key = build_graph(c["G"]), build_graph(c["H"]), c["key"]
+    got, exc = _exc(CanonRSMI.get_aam_pairwise_indices, G, H) if key == "atom_map" else \
+        (_exc(CanonRSMI.get_aam_pairwise_indices, G, H, key) if len(c["G"]["nodes"]) % 2 else _exc(CanonRSMI.get_aam_pairwise_indices, G, H, aam_key=key))
+    gm = {d[key]: n for n, d in c["G"]["nodes"] if d.get(key, 0) > 0}
+    hm = {d[key]: n for n, d in c["H"]["nodes"] if d.get(key, 0) > 0}
+    want = [[gm[k], hm[k]] for k in sorted(set(gm) & set(hm))]
+    ctx.count(f"canon_edge:pairwise_indices:key:{'default' if key == 'atom_map' else 'other'}")
+    ctx.case(["pairwise", c["G"], c["H"], key], nontrivial=len(want) >= 2)
+    if (exc is not None or [list(p) for p in got] != want) and new_violation_ok(ctx, "canon_edge", src):
+        ctx.violation("get_aam_pairwise_indices differs from its specification (shared positive map values in increasing order -> "
+                      "(reactant node, product node))", {"stream": "canon_edge", "source": src, "mode": "pairwise", **c},
+                      {"impl": exc or [list(p) for p in got], "spec": want}, no_input=True)
+
+
+def gen_helpers(ctx, pool, n):
+    rnd = ctx.rnd
+    remaps, pairs = [], []
+    for i, (s, r) in enumerate(rnd.sample(pool, min(n, len(pool)))):
+        G, H = parse_rxn(r)
+        hj = helper_graph(H)
+        ids = [x[0] for x in hj["nodes"]]
+        kind = ["order_full", "pairs_full", "order_prefix", "missing_id", "pairs_partial", "empty", "order_full"][i % 7]
+        if kind == "order_full":
+            nm = ids[:]
+            rnd.shuffle(nm)
+            c = {"form": "order", "node_map": nm}
+        elif kind == "order_prefix":  # ids not listed keep their value: lists that stay injective and lists that collide both occur
+            nm = ids[:]
+            rnd.shuffle(nm)
+            c = {"form": "order", "node_map": nm[:rnd.randrange(1, len(nm) + 1)]}
+        elif kind in ("pairs_full", "pairs_partial"):
+            olds = ids[:]
+            rnd.shuffle(olds)
+            if kind == "pairs_partial":
+                olds = olds[:rnd.randrange(1, len(olds) + 1)]
+            news = rnd.sample(range(1, 3 * len(ids) + 2), len(olds)) if rnd.random() < 0.5 else \
+                [max(ids) + 1 + i for i in range(len(olds))]
+            c = {"form": "pairs", "node_map": [[a, b] for a, b in zip(news, olds)]}
+        elif kind == "empty":
+            c = {"form": rnd.choice(["order", "pairs"]), "node_map": []}
+        else:
+            nm = ids[:rnd.randrange(1, len(ids) + 1)] + [max(ids) + rnd.randrange(1, 9)]
+            rnd.shuffle(nm)
+            c = {"form": "order", "node_map": nm} if rnd.random() < 0.5 else \
+                {"form": "pairs", "node_map": [[j + 1, o] for j, o in enumerate(nm)]}
+        remaps.append((s, {"graph": hj, "kind": kind, **c}))
+        # pairwise indices: node ids decoupled from the map numbers, some atoms unmapped (0), default / other attribute name
+        key = "atom_map" if rnd.random() < 0.5 else rnd.choice(["aam", "map_id"])
+        gj, hj2 = helper_graph(G), helper_graph(H)
+        for j in (gj, hj2):
+            perm = [x[0] for x in j["nodes"]]
+            rnd.shuffle(perm)
+            ren = {x[0]: p + 100 for x, p in zip(j["nodes"], perm)}
+            for x in j["nodes"]:
+                m = x[1].pop("atom_map", x[0])
+                x[1][key] = 0 if rnd.random() < 0.15 else m
+                x[0] = ren[x[0]]
+            for e in j["edges"]:
+                e[0], e[1] = ren[e[0]], ren[e[1]]
+        pairs.append((s, {"G": gj, "H": hj2, "key": key}))
+    return remaps, pairs
+
+
+# ---- 12. one side that RDKit rejects / unsupported containers: what the checks must NOT answer
+def malformed_stream(ctx, pool, n):
+    from synkit.Chem.Reaction.aam_validator import AAMValidator
+    from synkit.Chem.Reaction.balance_check import BalanceReactionCheck
+    from synkit.Chem.Reaction.fix_aam import FixAAM
+
+    rnd = ctx.rnd
+    for i, (s, r) in enumerate(rnd.sample(pool, min(n, len(pool)))):
+        lhs, rhs = r.split(">>")
+        junk = rnd.choice(JUNK_NOSAN if i % 2 else JUNK_NOPARSE)
+        which = ["left", "right", "both"][i % 3]
+        x = {"left": junk + ">>" + rhs, "right": lhs + ">>" + junk, "both": junk + ">>" + rnd.choice(JUNK_NOSAN + JUNK_NOPARSE)}[which]
+        case = {"stream": "malformed", "source": s, "rsmi": x, "truth": r, "which": which}
+        ctx.count(f"malformed:rejected_side:{which}")
+        ctx.case(["malformed", x, r], nontrivial=True, sample={"stream": "malformed", "rsmi": x} if len(x) < 120 else None)
+        bad = malformed_problems(case)
+        bal = _exc(BalanceReactionCheck.rsmi_balance_check, x)
+        ctx.count(f"malformed:balance:{which}:{bal[0] if bal[1] is None else bal[1]}")
+        for what in bad:
+            if new_violation_ok(ctx, "malformed", s):
+                ctx.violation(what, case, None)
+    # unsupported containers
+    got = _exc(AAMValidator.validate_smiles, ({"ground_truth": pool[0][1], "rxn_mapper": pool[0][1]},), "ground_truth", ["rxn_mapper"])
+    ctx.count(f"malformed:validate_smiles_on_tuple:{got[1] or 'answers'}")
+    ctx.case(["malformed", "validate_smiles_on_tuple"], nontrivial=False)
+    if got[1] != "ValueError" and new_violation_ok(ctx, "malformed", "generated"):
+        ctx.violation("validate_smiles on a container that is neither a DataFrame nor a list does not raise the documented ValueError",
+                      {"stream": "malformed", "source": "generated", "mode": "validate_smiles_on_tuple"}, {"answer": repr(got)[:200]}, no_input=True)
+
+
+def malformed_problems(case):
+    """-> list of statements violated on a reaction with a side that RDKit rejects (pure function of the case; used by replays)."""
+    from synkit.Chem.Reaction.aam_validator import AAMValidator
+    from synkit.Chem.Reaction.balance_check import BalanceReactionCheck
+    from synkit.Chem.Reaction.fix_aam import FixAAM
+
+    x, r, which = case["rsmi"], case["truth"], case["which"]
+    out = []
+    if which != "both" and _exc(BalanceReactionCheck.rsmi_balance_check, x)[0] is True:
+        # (both sides rejected: the implementation compares two empty formulae and answers True - no element counts exist, not gated)
+        out.append("balance check answers True although one side is not a molecule set (no element counts to agree with)")
+    for m in METHODS:
+        for a, b in ((x, r), (r, x)):
+            if AAMValidator.smiles_check(a, b, m) is not False:
+                out.append(f"smiles_check accepts a pair with a side that RDKit rejects (method {m})")
+    rec = {"ground_truth": x, "rxn_mapper": r}
+    for it in (True, False):
+        v, e = _exc(AAMValidator.check_pair, rec, "rxn_mapper", "ground_truth", "ITS", ignore_tautomers=it)
+        if v is True:
+            out.append(f"check_pair accepts a mapping against a ground truth that RDKit rejects (ignore_tautomers={it})")
+    v, e = _exc(FixAAM.fix_aam_rsmi, x)
+    if e is None:
+        out.append("FixAAM.fix_aam_rsmi returns a reaction for a side that RDKit rejects: " + repr(v)[:80])
+    return out
+
+
 # ---------------------------------------------------------------- driver
 def load_regress():
     d = ROOT / "regress" / "C09"
@@ -1561,7 +2272,15 @@ def run_one(ctx, c, n_variants=3):
                               "no non-trivial automorphism", c, {"canonical": a, "canonical_of_variant": b},
                               [CLASS_WL] if c["backend"] == "wl" and wl_tie(gh[0]) else [])
     elif s == "validator":
-        fixed = [(c.get("kind", "replay"), c["variant"])] if "variant" in c else None
+        fixed = [(c.get("kind", "replay"), c["variant"])] if c.get("variant") is not None else None
+        if c.get("kind") in NORMALIZE_KINDS + ("fix_aam",):  # a produced re-spelling: produced again by the tree under test
+            try:
+                fixed = [(c["kind"], produced_variant(c["kind"], c["rsmi"]))]
+            except Exception as e:  # noqa: BLE001
+                ctx.violation("NormalizeAAM.fit / FixAAM raises on a parseable mapped reaction", c, {"exception": repr(e)[:300]})
+                return
+        if c.get("variants"):
+            fixed = [(k, v) for k, v in c["variants"]]
         run_batch(ctx, [validator_case(ctx, c.get("source", "regress"), c["rsmi"], 3, fixed)])
     elif s == "balance":
         run_batch(ctx, [balance_case(ctx, c.get("source", "regress"), c["rsmi"])])
@@ -1570,6 +2289,25 @@ def run_one(ctx, c, n_variants=3):
         run_batch(ctx, [standardize_case(ctx, c.get("source", "regress"), c["rsmi"], 4, fixed)])
     elif s == "session":
         run_batch(ctx, [session_case(ctx, c.get("kind", "session"), c.get("source", "regress"), c["sessions"], minimise=False)])
+    elif s == "balance_entry":
+        run_batch(ctx, [balance_entry_case(ctx, c.get("source", "regress"), {k: v for k, v in c.items() if k != "source"})])
+    elif s == "standardize_opt":
+        if c.get("mode") == "remove_atom_mapping":
+            remove_mapping_case(ctx, c.get("source", "regress"), c["rsmi"], c["symbol"])
+        else:
+            run_batch(ctx, [standardize_opt_case(ctx, c.get("source", "regress"),
+                                                 {k: v for k, v in c.items() if k not in ("source", "stream")})])
+    elif s == "canon_edge":
+        d = {k: v for k, v in c.items() if k not in ("source", "stream")}
+        if c.get("mode") == "pairwise":
+            pairwise_case(ctx, c.get("source", "regress"), d)
+        else:
+            run_batch(ctx, [(remap_case if c.get("mode") == "remap_graph" else canon_edge_case)(ctx, c.get("source", "regress"), d)])
+    elif s == "malformed":
+        if "rsmi" in c:
+            ctx.case(["malformed", c["rsmi"], c["truth"]], nontrivial=True)
+            for what in malformed_problems(c):
+                ctx.violation(what, c, None)
     elif s == "entry":
         # the recorded call first (when there is one), then the full call matrix in a fixed order, all in this process
         full = entry_calls(None, c["gt"] == DEFAULT_GT and list(c["cols"]) == DEFAULT_COLS)
@@ -1615,6 +2353,18 @@ def run(ctx):
         "ignore_tautomers=False means: some reactant tautomer of the ground truth (or the ground truth itself) passes the plain "
         "check - gated only for ground truths with <= 8 tautomers (cost), and always: a mapping isomorphic to the ground truth is "
         "accepted; accuracy / success_rate figures of validate_smiles are not gated (the property speaks of verdicts)",
+        "NormalizeAAM.fit (anchored file without a clause of its own) is read as a normal form that only re-spells the mapping "
+        "(kekulised, map numbers + 1 unless fix_aam_indice=False, hydrogens outside the centre folded): on reactions without explicit "
+        "hydrogen atoms its output must be ITS-isomorphic to the input, with them centre-isomorphic",
+        "batch balance check: the order of the records inside the two lists is not gated; records without the reaction column and "
+        "unsupported containers (tuple) may be skipped / refused - only answers that ARE given are gated; a record that carries its "
+        "own key 'balanced' must still be answered by element counts (class " + CLASS_BAL_KEY + ")",
+        "Standardize options / rejected fragments / malformed strings and get_aam_pairwise_indices are compared against an independent "
+        "specification written in the harness (std_expect: RDKit per fragment, sorted by Lean rxn.standardize; brute force over the "
+        "shared map values), not against a Lean model of RDKit; error branches are matched by exception type (ValueError / KeyError)",
+        "a reaction with a side that RDKit rejects has no element counts and no ITS graph: the balance check must not answer True when "
+        "exactly one side is rejected (both rejected: the implementation answers True - counted, not gated, outside the property), the "
+        "validator must not accept",
     ]
     ctx.gen_rule = (
         "regression inputs first; population = vendored mapped reactions (ecoli 274, USPTO test set 100) plus hand-written small "
@@ -1635,11 +2385,29 @@ def run(ctx):
         "with the same centre signature, the reaction itself), grouped into tables of 1-5 records (+ one record twice, p=0.25), default "
         "column names (p=0.4) or others with 1-3 of the columns in shuffled order; per table 8 reference calls, 11 validate_smiles and "
         "11 check_pair calls (method not passed / RC / ITS x flags not passed / 4 combinations; style kw / positional / DataFrame / "
-        "default columns drawn per call), in a shuffled order.")
+        "default columns drawn per call), in a shuffled order. "
+        "Inside stream 2: per reaction NormalizeAAM.fit(r) / fit(r, fix_aam_indice=False) (quick: one of the two on every second reaction, "
+        "chosen by the length of the string mod 4; thorough: both) as variants; check_equivariant_graph on [ground truth, first renumbering, last 3 variants]. "
+        "Streams 9-12 (generated last): 16/210 balance batches (input form cycled: list of records, string, mixed, list of strings, "
+        "tuple; 1-6 reactions drawn from the stream-3 variants original / fragment deleted / duplicated / reversed / charge only / same "
+        "ion on both sides; default column or one of 3 others by keyword / position; records without the column p=0.25; a record with a "
+        "stale key 'balanced' p=0.25 and in batch 0; workers: constructor default 4 and n_jobs=2 in 2 of 14 batches, else 1); "
+        "Standardize: 3 hand-written stereo reactions + 25/all corpus reactions with stereo marks through fit(ignore_stereo=False) "
+        "(keyword / positional) with a re-rooted and a renumbered variant, p=0.4 standardize_rsmi(stereo=True) on the unmapped shuffled "
+        "reaction; 30/all standard forms with 1-3 fragments that RDKit rejects (7 unsanitisable, 5 unparseable) inserted or one side "
+        "replaced by them, through fit(remove_aam=False) (keyword / positional / standardize_rsmi; stereo p=0.3) with a fragment-"
+        "shuffled variant and through fit(remove_aam=True); 6 strings with 0 / 2 separators; 6/60 remove_atom_mapping calls with "
+        "separator '>', '=>', '>>', '->'; canonicaliser: 18/200 degenerate reactions (mode cycled: not A>>B, product side empty / "
+        "unmapped / both sides unmapped, reactant side empty, __call__; back-end drawn); 30/400 remap_graph calls on product graphs "
+        "(kind cycled: full id list, full pairs, prefix of the id list, an id the graph lacks, partial pairs, empty) and as many "
+        "get_aam_pairwise_indices calls (node ids permuted + 100, 15% of the atoms unmapped, default / other attribute name); "
+        "12/100 reactions with the left / right / both sides replaced by a rejected fragment (cycled).")
     ctx.nontrivial_rule = ("distinct (stream, back-end/method, reaction, variant); canon: >=3 reactant atoms and >=2 bonds; validator: "
                            "centre with >=2 atoms; balance: >=2 atoms on the left; standardize: >=2 fragments; sessions: distinct "
                            "(options, history up to the step), >=3 reactant atoms mapped on both sides' ITS and >=2 bonds; entry points: distinct "
-                           "(entry point, style, method, flags, ground truth, mapped reaction), centre of the ground truth >=2 atoms")
+                           "(entry point, style, method, flags, ground truth, mapped reaction), centre of the ground truth >=2 atoms; "
+                           "streams 9-12: distinct (stream, options, input); balance batches with >=2 reactions, standardize inputs with >=2 "
+                           "fragments, remap graphs with >=3 nodes, pairwise specifications with >=2 pairs")
     build_and_audit(ctx, ["SynKitProofs.Props.C09"], "SynKitProofs/Audit/C09.lean", THEOREMS)
 
     for c in load_regress():
@@ -1691,6 +2459,23 @@ def run(ctx):
     ctx.count("entry_pool", len(epool))
     entry_stream(ctx, epool, 28 if q else 260)
     lap("entry")
+    # streams 9-12 (batch balance entry point, Standardize options / rejected fragments, degenerate reactions and public helpers
+    # of the canonicaliser, rejected sides), generated after everything else
+    balance_entry_stream(ctx, synthetic + real, 16 if q else 210)
+    lap("balance_entry")
+    run_batch(ctx, [standardize_opt_case(ctx, s, c) for s, c in gen_standardize_opt(ctx, synthetic + real, 25 if q else 10 ** 6,
+                                                                                    30 if q else 10 ** 6)])
+    for s, r in ctx.rnd.sample(real, min(len(real), 6 if q else 60)):
+        remove_mapping_case(ctx, s, r, ctx.rnd.choice([">", "=>", ">>", "->"]))
+    lap("standardize_opt")
+    run_batch(ctx, [canon_edge_case(ctx, s, c) for s, c in gen_canon_edge(ctx, pool, 18 if q else 200)])
+    remaps, pws = gen_helpers(ctx, synthetic + small, 30 if q else 400)
+    run_batch(ctx, [remap_case(ctx, s, c) for s, c in remaps])
+    for s, c in pws:
+        pairwise_case(ctx, s, c)
+    lap("canon_edge")
+    malformed_stream(ctx, synthetic + small, 12 if q else 100)
+    lap("malformed")
     ctx.extra["stream_wall_s"] = walls
 
     known = load_known(ctx.pid)
@@ -1709,6 +2494,17 @@ def run(ctx):
                    "fed back; partially mapped reactions with recurring unmapped reagents; non-default options): every answer "
                    "is ITS-equivalent to its query, has the same unmapped sides, is a fixed point and equals a fresh "
                    "instance's answer", stream_ok("session"))
+    ctx.obligation("batch balance entry point dicts_balance_check (string / list of strings / list of records / mixed; default and other "
+                   "column; 1, 2 and the default 4 workers): every reaction given is answered once, other keys kept, verdict == model "
+                   "and == the list it is put in", stream_ok("balance_entry"))
+    ctx.obligation("Standardize with ignore_stereo=False / remove_aam=False / rejected fragments / malformed strings: fit == model with "
+                   "explicit error branches; idempotent; invariant under rewritings; remove_atom_mapping with another separator",
+                   stream_ok("standardize_opt"))
+    ctx.obligation("CanonRSMI on degenerate reactions and through __call__ == model canonRxnWith incl. its error enum; remap_graph "
+                   "(pairs / id list) == Lean remapGraph / remapGraphList; get_aam_pairwise_indices == brute-force specification",
+                   stream_ok("canon_edge"))
+    ctx.obligation("a side that RDKit rejects: balance check does not answer True, validator entry points do not accept, FixAAM raises",
+                   stream_ok("malformed"))
     ctx.obligation("validator entry points check_pair / validate_smiles (list of dicts, DataFrame, default column names; methods RC, "
                    "ITS, default; flags not passed and in all four combinations; by keyword / position): every verdict == "
                    "smiles_check (over the reactant tautomers when ignore_tautomers=False) with the same method and flags == Lean iso "
